@@ -170,7 +170,7 @@ func C20(r *drv.Run) {
 		ntrees, npat = 400, 150
 		plen = 5
 	}
-	r.Rule = fmt.Sprintf("exhaustive: every pattern of length <= %d over {a,b,.,*} with at most 3 stars x a directory holding every name of length <= 4 over {a,b,.} (118 files) and 3 sub-directories with matching names; generated trees of depth <= 3 (names such as a.txt.txt, abxb, .a, and names containing ? [ ] + { } blank backslash, which only '*' may treat specially) with relative and absolute multi-segment patterns, the trees also holding symbolic links to sibling directories and files and regular files with unusual permission bits (000, 200, 111). The selection is also observed end to end: the built command line tool run inside some of the trees with `find top 1 any` (every file holds one byte), alone, with -profile naming a file OUTSIDE the tree that is called like a file inside it, with -replace-mode plus a JSON output file, and with an absolute pattern into a sibling directory whose name begins like the working directory's; the set of file names in its JSON output must be the same set. Every parsed pattern is asked twice (and once from another directory in between): same answer. A working directory reached through a link and back (a/l/.. with l pointing elsewhere; decoys at the textually cleaned place; entries that are links to a file and to a directory): six patterns. Crowded and deep directories: one directory holding 255..4 097 (thorough ..20 011) entries, counts on both sides of 256, 1 024, 2 048, 4 096, files and sub-directories mixed, asked with wildcard and literal last and middle segments (also with two more segments behind a wildcard that matches thousands of plain files), while the worker may hold 128 file descriptors, and a chain of twelve directory levels asked literally and star by star; floor: a list of more than 2 048 files compared. Oracle: reference glob (segment-wise, backtracking '*') over the harness's own record of the tree; result sets compared after filepath.Clean; duplicates and listed directories are violations. Non-trivial = pattern containing '*' that selects a non-empty proper subset; distinct by (tree, pattern).", plen)
+	r.Rule = fmt.Sprintf("exhaustive: every pattern of length <= %d over {a,b,.,*} with at most 3 stars x a directory holding every name of length <= 4 over {a,b,.} (118 files) and 3 sub-directories with matching names; generated trees of depth <= 3 (names such as a.txt.txt, abxb, .a, and names containing ? [ ] + { } blank backslash, which only '*' may treat specially) with relative and absolute multi-segment patterns, the trees also holding symbolic links to sibling directories and files and regular files with unusual permission bits (000, 200, 111). The selection is also observed end to end: the built command line tool run inside some of the trees with `find top 1 any` (every file holds one byte), alone, with -profile naming a file OUTSIDE the tree that is called like a file inside it, with -replace-mode plus a JSON output file, and with an absolute pattern into a sibling directory whose name begins like the working directory's; the set of file names in its JSON output must be the same set. Every parsed pattern is asked twice (and once from another directory in between): same answer. A working directory reached through a link and back (a/l/.. with l pointing elsewhere; decoys at the textually cleaned place; entries that are links to a file and to a directory): six patterns. Crowded and deep directories: one directory holding 255..4 097 (thorough ..20 011) entries, counts on both sides of 256, 1 024, 2 048, 4 096, files and sub-directories mixed, among them names with the bytes 0xFF, 0xFE, 0x80, 0x7F, 0x01 and a letter in Latin-1 and in UTF-8, asked with wildcard and literal last and middle segments (also with two more segments behind a wildcard that matches thousands of plain files), while the worker may hold 128 file descriptors, and a chain of twelve directory levels asked literally and star by star; floor: a list of more than 2 048 files compared. Oracle: reference glob (segment-wise, backtracking '*') over the harness's own record of the tree; result sets compared after filepath.Clean; duplicates and listed directories are violations. Non-trivial = pattern containing '*' that selects a non-empty proper subset; distinct by (tree, pattern).", plen)
 	r.Assumptions = []string{
 		"excluded as the property says: directory segments made only of stars, '.' and '..' segments",
 		"a doubled separator counts as one (as in any path); a trailing separator leaves an empty LAST segment, which matches only the empty name, i.e. no file",
@@ -370,6 +370,17 @@ func C20(r *drv.Run) {
 					big.kids = append(big.kids, &refNode{name: nm})
 				}
 			}
+			// names with bytes at the ends of the byte range (0xFF, 0xFE, 0x80, 0x7F, 0x01) and a Latin-1 / UTF-8 letter,
+			// as files and as a sub-directory, in the same crowded directory
+			for _, nm := range []string{"a\xff1.log", "a\xff2.log", "a\xfe.log", "\xffz", "\xff", "a\x80.log", "a\x7f.log", "a\x01.log", "a\xc3\xa9.log", "a\xe9.log", "zz\xff\xff.log"} {
+				if os.WriteFile(filepath.Join(base, "big", nm), []byte("x"), 0o644) == nil {
+					big.kids = append(big.kids, &refNode{name: nm})
+				}
+			}
+			if os.MkdirAll(filepath.Join(base, "big", "d\xffir"), 0o755) == nil {
+				os.WriteFile(filepath.Join(base, "big", "d\xffir", "x.txt"), []byte("x"), 0o644)
+				big.kids = append(big.kids, &refNode{name: "d\xffir", dir: true, kids: []*refNode{{name: "x.txt"}}})
+			}
 			tree.kids = append(tree.kids, big)
 			deep := &refNode{name: "deep", dir: true}
 			tree.kids = append(tree.kids, deep)
@@ -391,6 +402,7 @@ func C20(r *drv.Run) {
 				// a wildcard directory segment with TWO more segments behind it: every plain file it matches is asked for a
 				// sub-directory (and is none) before the real sub-directories are reached
 				"big/*/sub/*.txt", "*/*/sub/y.txt", "big/*/s*/y*",
+				"big/a\xff*.log", "big/\xff*", "big/d\xff*/x.txt", "big/a\xfe*", "big/a\xc3\xa9*", "big/a\xe9.log", "big/a\x80*", "big/a\x7f*", "big/a\x01*", "big/zz\xff\xff*", "big/a\xff1.log", "big/*\xff*",
 				lit + "/*.txt", stars + "/leaf.txt", lit + "/leaf.txt", stars + "/*"} {
 				cps = append(cps, flatPat{len(ctcs) - 1, pat})
 			}
@@ -398,7 +410,14 @@ func C20(r *drv.Run) {
 		r.Exec(len(cps), drv.ExecOpts{Batch: 13}, func(i int) *drv.Item {
 			fp := cps[i]
 			tc := ctcs[fp.tc]
-			return &drv.Item{Case: wire.Case{Op: "glob", Pattern: fp.pat, Dir: tc.base, FdLimit: 128}, Check: func(res *wire.Result) {
+			return &drv.Item{Case: wire.Case{Op: "glob", Pattern: fp.pat, PatternB: []byte(fp.pat), Dir: tc.base, FdLimit: 128}, Check: func(res *wire.Result) {
+				if res.FilesB != nil {
+					// names as bytes (JSON would replace bytes that are no UTF-8)
+					res.Files = res.Files[:0]
+					for _, f := range res.FilesB {
+						res.Files = append(res.Files, string(f))
+					}
+				}
 				before := r.NViolations()
 				check(tc.tree, tc.base, fp.pat, tc.base, i%29 == 0)(res)
 				if r.NViolations() == before && len(res.Files) > 2048 {
